@@ -215,4 +215,50 @@ Section GlobalsProofs.
     apply (reads_schedule_independent g [p] sched (history_preserves_GInv g_init hist hsched GInv_init Hh)
              (Forall_cons _ Hp (Forall_nil _)) 0 p t eq_refl Ht Hf).
   Qed.
+
+  (* the debug API between compilations: log_start / log_finish never poison the lock and do not touch the cells *)
+  Lemma api_step_GInv g s : GInv g -> compile_step s = false -> GInv (fst (fst (gstep g 0 s))).
+  Proof.
+    intros [Hp Hc] Hs. destruct s; cbn [compile_step] in Hs; try discriminate Hs; cbn [Globals.gstep].
+    - split; [exact Hp | exact Hc].
+    - rewrite Hp. split; [reflexivity | exact Hc].
+  Qed.
+
+  (* a history: batches of concurrent compilations (any schedule, complete or cut short), with calls of the debug
+     API between the batches *)
+  Inductive hitem := HCompiles (progs : list (list step)) (sched : list nat) | HApi (s : step).
+
+  Definition hitem_ok (h : hitem) : Prop :=
+    match h with
+    | HCompiles progs _ => Forall (fun q => forallb compile_step q = true) progs
+    | HApi s => compile_step s = false
+    end.
+
+  Definition hstep (g : gstate) (h : hitem) : gstate :=
+    match h with
+    | HCompiles progs sched => fst (run g (map spawn progs) sched)
+    | HApi s => fst (fst (gstep g 0 s))
+    end.
+
+  Lemma history_GInv hist : Forall hitem_ok hist -> forall g, GInv g -> GInv (fold_left hstep hist g).
+  Proof.
+    induction hist as [|h hist IH]; intros Hok g HG; [exact HG|].
+    inversion Hok as [|? ? Hh Hrest]; subst. cbn [fold_left]. apply IH; [exact Hrest|].
+    destruct h as [progs sched|s]; cbn [hstep hitem_ok] in *.
+    - apply history_preserves_GInv; assumption.
+    - apply api_step_GInv; assumption.
+  Qed.
+
+  Theorem history_with_api_independent hist p sched t :
+    Forall hitem_ok hist -> forallb compile_step p = true ->
+    let g := fold_left hstep hist g_init in
+    nth_error (snd (run g [spawn p] sched)) 0 = Some t -> finished t = true ->
+    t_reads t = expected_reads p /\ t_panicked t = false.
+  Proof.
+    intros Hh Hp g Ht Hf.
+    pose proof (history_GInv hist Hh g_init GInv_init) as HG.
+    split.
+    - apply (reads_schedule_independent g [p] sched HG (Forall_cons _ Hp (Forall_nil _)) 0 p t eq_refl Ht Hf).
+    - apply (never_panics g [p] sched HG (Forall_cons _ Hp (Forall_nil _)) 0 t Ht).
+  Qed.
 End GlobalsProofs.
